@@ -7,6 +7,8 @@ package main
 import (
 	"flag"
 	"fmt"
+	"io"
+	"log"
 	"os"
 	"strconv"
 	"strings"
@@ -21,6 +23,7 @@ func main() {
 	selftest := flag.Bool("selftest", false, "run the engine self-tests")
 	replay := flag.String("replay", "", "replay file")
 	flag.Parse()
+	log.SetOutput(io.Discard) // the code under test logs unknown client messages
 	if *selftest {
 		os.Exit(b.SelfTest())
 	}
